@@ -444,6 +444,8 @@ def parent(modname: str, tier: str, seed: int, only: str | None, nshards_opt: in
                 merged.messages.append(f"known finding {ent['id']} no longer reproduces from its stored case")
         elif r["status"] == "fixed" and r["sigs"]:
             for s, d in zip(r["sigs"], r.get("details", []) + [""] * len(r["sigs"])):
+                if findings.lookup(prop, s) is not None:
+                    continue        # an open known finding also shows on this stored case
                 rep = ent["replay"]
                 violations.setdefault(s, {"sig": s, "detail": f"regression of fixed finding {ent['id']}: {d}",
                                           "engine": rep["engine"], "case": rep["case"], "count": 1, "size": 0})
